@@ -109,6 +109,10 @@ class ReaderWP(IdEnvWP):
         return super().ev(n)
 
     def loop(self, n):
+        """`for (init; cond; inc)` whose condition becomes FALSE BY CONSTANT FOLDING after finitely many iterations (a counter against a
+        template constant, possibly conjoined with a symbolic condition such as `i < trank && !empty`) is executed exactly: every
+        iteration runs under `guard /\ cond`, the paths on which the symbolic part of the condition is false leave the loop with the state
+        they have there and are merged behind it.  Anything else falls back to the invariant rule."""
         if n.get('kind') != 'ForStmt':
             return super().loop(n)
         init, condvar, cond, inc, body = n['inner']
@@ -116,34 +120,76 @@ class ReaderWP(IdEnvWP):
             return super().loop(n)
         saved = (dict(self.env), self.guard, len(self.obligations), len(self.facts))
         self.ex(init)
-        trips = 0
+        trips, exits = 0, []
         while True:
-            c = fold_cmp(self.conv(self.ev(cond), 'Bool', 'bool').t)
-            if c is None:
-                # not a constant trip count: back to the invariant-based rule from the state before the loop
+            c = simp(self.conv(self.ev(cond), 'Bool', 'bool').t)
+            if c == 'false':
+                break
+            trips += 1
+            if trips > self.MAX_TRIPS:
+                # the condition never folds to false: not a constant bound -- back to the invariant rule from the state before the loop
                 self.env, self.guard = saved[0], saved[1]
                 del self.obligations[saved[2]:]
                 del self.facts[saved[3]:]
                 return super().loop(n)
-            if not c:
-                break
-            trips += 1
-            if trips > self.MAX_TRIPS:
-                raise Unsupported(f'{self.name}: constant loop with more than {self.MAX_TRIPS} iterations')
+            g = self.guard
+            if c != 'true':
+                exits.append((AND(g, NOT(c)), dict(self.env)))
+            self.guard = AND(g, c)
             self.loop_exits.append({'breaks': [], 'continues': []})
             try:
                 self.ex(body)
             finally:
-                exits = self.loop_exits.pop()
-            if exits['breaks'] or exits['continues']:
+                ex_ = self.loop_exits.pop()
+            if ex_['breaks'] or ex_['continues']:
                 raise Unsupported(f'{self.name}: break / continue inside a constant-trip-count loop')
             self.ev(inc)
             for key in self.assigned_vars(inc):
                 v = self.env.get(key)
                 if v is not None and v.s == 'Int' and fold(v.t) is not None:
                     self.env[key] = V(lit(fold(v.t)), 'Int', v.c)
+        for ge, enve in reversed(exits):
+            self.env = self.merge(ge, enve, self.env)
+            self.guard = OR(self.guard, ge)
         self.loops += 1
-        self.note(f'for loop with the constant trip count {trips} executed exactly')
+        self.note(f'for loop with a constant bound executed exactly ({trips} iterations' + (', early exits merged)' if exits else ')'))
+
+
+def sexpr_parts(body):
+    parts, depth, cur = [], 0, ''
+    for ch in body:
+        if ch == '(':
+            depth += 1
+        if ch == ')':
+            depth -= 1
+        if ch == ' ' and depth == 0:
+            if cur:
+                parts.append(cur)
+            cur = ''
+        else:
+            cur += ch
+    if cur:
+        parts.append(cur)
+    return parts
+
+
+def simp(t):
+    """boolean term with its closed integer comparisons decided: 'true' / 'false' / the residual term"""
+    t = t.strip()
+    if t in ('true', 'false'):
+        return t
+    c = fold_cmp(t)
+    if c is not None:
+        return 'true' if c else 'false'
+    m = re.fullmatch(r'\((and|or|not) (.*)\)', t, re.S)
+    if not m:
+        return t
+    parts = [simp(p) for p in sexpr_parts(m.group(2))]
+    if m.group(1) == 'and':
+        return AND(*parts)
+    if m.group(1) == 'or':
+        return OR(*parts)
+    return NOT(parts[0]) if len(parts) == 1 else t
 
 
 # ---------------------------------------------------------------------------------------------------- stream model
@@ -449,8 +495,8 @@ def reader_vcs(tag, scalar, R):
     vcs = wp.vcs(name, HDR, about)
     for v in vcs:
         v.group = name
-        # the EMPTY-tensor completeness claims are REFUTED for rank >= 3 (FINDING_empty_tensor_rejected.md): z3-new does not find
-        # the model of the nonlinear system quickly, z3 does; the short timeout only moves on to the next solver sooner
+        # on the reader BEFORE the repair of FINDING_empty_tensor_rejected.md the EMPTY-tensor completeness claims are refuted for rank >= 3;
+        # z3-new does not find that model of the nonlinear system quickly, z3 does (the regression test of the repair relies on it)
         v.timeout = 45
     rv = reach_vc(wp, name, HDR)
     rv.group = name
@@ -464,7 +510,11 @@ def reader_vcs(tag, scalar, R):
 
 def build(tier):
     import core
-    insts = INST if tier == 'thorough' else [i for i in INST if i[:1] + i[2:] in (('f64', 1), ('f64', 2), ('f64', 4), ('i8', 1), ('i8', 3))]
+    # quick: one instantiation per obligation family -- rank 1 (int8) and 2 (guard arithmetic), double rank 3 (the smallest shape class on which the
+    # EMPTY-tensor completeness claims distinguish the repaired guard from the one that rejected empty tensors), int8 rank 1 (sizeof 1:
+    # max_size == INT64_MAX); thorough adds double rank 1 and 4, int64 rank 1, int8 rank 3
+    QUICK = (('f64', 2), ('f64', 3), ('i8', 1))
+    insts = INST if tier == 'thorough' else [i for i in INST if (i[0], i[2]) in QUICK]
     astload.dump(TU, 'nano::read')
     vcs, fns = [], []
     for tag, scalar, R in insts:
